@@ -65,6 +65,26 @@ fn gen_orphans(r: &mut Rng, seed: u64, idx: u64) -> Plan {
         c.reqs.push(w.plan());
         conns.push(c);
     }
+    // Half of the time one more client is there that does not leave: its
+    // handler is running when the server is closed, and closing the server
+    // is no disconnect - it gets its response like any client that stays.
+    if r.chance(1, 2) {
+        let mut c = blank_conn(1790);
+        c.start_ms = up + r.range(0, 200);
+        let w = WorkReq {
+            nonce: 1 + n as u64,
+            steps: r.range(1, 4) as u32,
+            step_ms: r.range(300, 3_000),
+            panic_at: 0,
+            resp_bytes: *r.pick(&[0usize, 10, 300, 20_000]),
+            body: None,
+            chunked: None,
+        };
+        c.steps.push(Step::Send { data: Blob(w.bytes()), completes: Some(0) });
+        c.steps.push(Step::AwaitResponses { count: 1, max_ms: AWAIT_MS });
+        c.reqs.push(w.plan());
+        conns.push(c);
+    }
     Plan {
         property: "C16".into(),
         seed: mix(seed, idx),
